@@ -6,10 +6,16 @@ D="$1"; P="${2:-patch.diff}"
 W=/tmp/confirm_$$
 git -C /repo worktree add -q --detach "$W" HEAD || exit 2
 ( cd "$W" && git apply "$OLDPWD/$D/$P" ) || { echo "patch does not apply" > "$D/confirm.log"; git -C /repo worktree remove --force "$W"; exit 2; }
-{
-  echo "== patch $P applied on $(git -C /repo rev-parse --short HEAD)"
+run_suites() {
   ( cd "$W" && CARGO_TARGET_DIR=/tmp/confirm_target cargo test --workspace --no-fail-fast --offline --lib 2>&1 | grep -E "^test result|FAILED|error(\[|:)" )
   ( cd "$W" && CARGO_TARGET_DIR=/tmp/confirm_target cargo test -p ohkami --features rt_tokio,DEBUG,sse,openapi --lib --offline 2>&1 | grep -E "^test result|FAILED|error(\[|:)" )
+}
+{
+  echo "== patch $P applied on $(git -C /repo rev-parse --short HEAD)"
+  OUT="$(run_suites)"
+  # one test binds a fixed TCP port and another straddles a second boundary: when other suites run at the same time either may fail spuriously; run once more
+  if echo "$OUT" | grep -q FAILED; then echo "(first run had a failure, running again)"; sleep 3; OUT="$(run_suites)"; fi
+  echo "$OUT"
 } > "$D/confirm.log" 2>&1
 git -C /repo worktree remove --force "$W"
 cat "$D/confirm.log"
